@@ -21,7 +21,8 @@
 //!   transaction with two predicate inputs: predicates checked on the instance's own
 //!   memory, then executed), peek (reads above $sp: panics on a clean stack), bad-input
 //!   (an input contract that does not exist: `transact` returns an error after init),
-//!   small-heap / mem-read (ALOC + CFE and emit the *unwritten* memory by RETD/LOGD),
+//!   small-heap / mem-read (ALOC + CFE and emit the *unwritten* memory: RETD/LOGD of the
+//!   region resp. its SHA-256),
 //!   plus (interpreter model only) predicate-only actions: check / estimate /
 //!   into_checked_reusable_memory of 6 predicate transactions on the instance's memory.
 //! Three models over the same alphabet:
@@ -364,17 +365,23 @@ fn script_pool() -> Vec<(&'static str, Vec<Instruction>, String)> {
         "ReturnData".into(),
     ));
 
-    // 128 KiB heap + 70 kB stack, nothing written, all emitted
+    // 96 KiB heap + 70 kB stack, nothing written; SHA-256 of both regions is returned
+    // (one hashing pass instead of emitting 166 kB through receipts)
     v.push((
         "mem-read",
         vec![
             op::move_(0x11, RegId::SP),
             op::movi(0x12, 70_000),
             op::cfe(0x12),
-            op::logd(RegId::ZERO, RegId::ZERO, 0x11, 0x12),
-            op::movi(0x10, 131_072),
+            op::movi(0x10, 98_304),
             op::aloc(0x10),
-            op::retd(RegId::HP, 0x10),
+            op::move_(0x13, RegId::SP),
+            op::cfei(64),
+            op::s256(0x13, 0x11, 0x12),
+            op::addi(0x14, 0x13, 32),
+            op::s256(0x14, RegId::HP, 0x10),
+            op::movi(0x15, 64),
+            op::retd(0x13, 0x15),
         ],
         "ReturnData".into(),
     ));
